@@ -47,6 +47,9 @@ def main():
         if a.prop == "C15":
             import threadscheck
             return threadscheck.run(a.prop, a.tier)
+        if a.prop == "C16":
+            import asynccheck
+            return asynccheck.run(a.prop, a.tier)
         print("unknown property %s" % a.prop)
         return 2
     except MachineryError as e:
